@@ -20,10 +20,10 @@ pub fn generate(tier: &str, rng: &mut Rng) -> Vec<Spec> {
     // exhaustive small scope (ties everywhere): complete histories of the maximal length; their
     // prefixes are covered because every output and accessor is compared after every sample
     let (len3, len4, lennan) = if thorough { (9, 7, 7) } else { (7, 5, 6) };
-    for n in 1..=6 { for xs in super::all_seqs(&abc, len3) { v.push(mk(n, &xs)); } }
-    for n in 1..=6 { for xs in super::all_seqs(&abcd, len4) { v.push(mk(n, &xs)); } }
-    for n in 1..=5 { for xs in super::all_seqs(&nan, lennan) { v.push(mk(n, &xs)); } }
-    for n in 1..=4 { for l in 0..3 { for xs in super::all_seqs(&nan, l) { v.push(mk(n, &xs)); } } }
+    for n in 1..=6 { for xs in crate::util::all_seqs(&abc, len3) { v.push(mk(n, &xs)); } }
+    for n in 1..=6 { for xs in crate::util::all_seqs(&abcd, len4) { v.push(mk(n, &xs)); } }
+    for n in 1..=5 { for xs in crate::util::all_seqs(&nan, lennan) { v.push(mk(n, &xs)); } }
+    for n in 1..=4 { for l in 0..3 { for xs in crate::util::all_seqs(&nan, l) { v.push(mk(n, &xs)); } } }
     // random long histories: small alphabets (ties), monotone runs, outliers, some NaN
     let nrand = if thorough { 5000 } else { 600 };
     let widths: &[usize] = if thorough { &[1, 2, 3, 4, 5, 6, 7, 8, 9, 10, 11, 12, 13, 16] } else { &[3, 4, 5, 6, 7, 8, 9] };
